@@ -372,7 +372,63 @@ func driveRoundTrip(c *driverCtx, prop string) error {
 			runRoundTrip(c, prop, wt.rtCase, vals, cfg, "witness|"+wt.name)
 		}
 	}
+	// size sweep (C01 only: the byte-level judge of C02 decodes every item in TLC): lengths around every power of two
+	// up to 2^17 for strings, byte strings, lists and maps, each length its own file with neighbours before and after
+	if prop == "C01" {
+		st := staticOf[WSweep]("WSweep")
+		var sizes []int
+		for k := 5; k <= 17; k++ {
+			for _, d := range []int{-1, 0, 1} {
+				sizes = append(sizes, 1<<k+d)
+			}
+		}
+		sizes = append(sizes, 1000, 10000, 100000, 3*4096, 5*8192)
+		for i, n := range sizes {
+			if !c.thorough() && n > 1<<15+1 && i%3 != int(c.seed)%3 {
+				continue // the largest sizes rotate with the seed in the quick tier
+			}
+			mk := func(which int) WSweep {
+				v := WSweep{Before: int64(n), After: "after"}
+				switch which {
+				case 0:
+					v.S = strings.Repeat("s", n)
+				case 1:
+					v.B = payload(c.rng, n)
+				case 2:
+					if n <= 1<<14+1 {
+						v.L = make([]int32, n)
+						for j := range v.L {
+							v.L[j] = int32(j % 100)
+						}
+					}
+				case 3:
+					if n <= 1<<12+1 {
+						v.M = make(map[string]int16, n)
+						for j := 0; j < n; j++ {
+							v.M[fmt.Sprintf("%x", j)] = int16(j % 100)
+						}
+					}
+				}
+				return v
+			}
+			for which := 0; which < 4; which++ {
+				vs := vals(mk(which), WSweep{Before: -1, After: "small"}, mk(which))(c)
+				cfg := rtConfig{Codec: codecs3[(i+which)%3], Block: []int{1 << 20, 0, 4096}[(i+which)%3], Flush: map[int]bool{}, Reader: readerKinds[(i+which)%4]}
+				runRoundTrip(c, prop, st, vs, cfg, fmt.Sprintf("sweep|%s", []string{"string", "bytes", "list", "map"}[which]))
+			}
+		}
+	}
 	return nil
+}
+
+// WSweep: one long value between two short ones
+type WSweep struct {
+	Before int64
+	S      string
+	B      []byte
+	L      []int32
+	M      map[string]int16
+	After  string
 }
 
 // usesExcludedShape: does the type contain a shape the known-findings list keeps out of composite cases?
